@@ -27,6 +27,9 @@ T9 = {
     "fileio/write_bin.cpp": ["write_bin"],
     "fileio/write_bin.h": ["write_bin"],
     "fileio/write_wdc.cpp": [],
+    "core/Macros.cpp": ["macros_expand_params"],
+    "fileio/read_hex.cpp": ["get_hex"],
+    "core/Macros.h": ["macros_expand_params"],
 }
 
 BOOL_BITFIELD = re.compile(r"^(\s*bool\s+\w+)\s*:\s*\d+\s*;", re.M)
@@ -132,6 +135,7 @@ def transform(rel, text):
 # when the rest of its translation unit cannot share a TU with the harness.  Nothing is rewritten.
 EXTRACT = [
     ("core/AsmContext.cpp", r"^void AsmContext::set_cpu\(int index\)\s*\{", "AsmContext_set_cpu.inc"),
+    ("asm/mips.cpp", r"^int link_function_mips\(", "link_function_mips.inc"),
 ]
 
 
